@@ -30,6 +30,7 @@ COMPONENTS_STUB = ["entropy source (SimEntropy)", "key store (harness)",
                    "channel (intact delivery)"]
 ASSUMPTIONS = ["cross product curve x hash x encoding x entry point x "
                "boundary scalar is sampled, not enumerated"]
+HISTORY_DIFF = {"quick": 120, "thorough": 1000}
 SHRINK = [["items"]]
 REQUIRED_PROBES = {"quick": ["digest_longer_than_order", "reloaded_vk",
                              "entropy_nonce"],
@@ -139,6 +140,7 @@ def execute(prog):
         "der_canonize": (lu.sigencode_der_canonize, lu.sigdecode_der),
     }
     real_os = getattr(lu, "os", None)
+    rlog = []
 
     def fail(oracle, site, msg, detail=None):
         raise core.Violation(core.violation(ID, oracle, site, msg, detail))
@@ -293,6 +295,7 @@ def execute(prog):
                 except Exception as e:
                     fail("verifies", "%s-%s" % (entry, type(e).__name__),
                          "verify raised %r" % (e,), dict(item=it, d=d))
+                rlog.append((entry, _hexsig(sig), repr(res)))
                 if res is not True:
                     fail("verifies", entry + "-falsy",
                          "verify returned %r" % (res,), dict(item=it))
@@ -303,4 +306,11 @@ def execute(prog):
                 lu.os = real_os
     out["steps"] = out["ops"]
     out["digest"] = core.digest_of(prog)
+    out["rdigest"] = core.digest_of(rlog)
     return out
+
+
+def _hexsig(sig):
+    if isinstance(sig, (tuple, list)):
+        return [bytes(x).hex() for x in sig]
+    return bytes(sig).hex()
